@@ -87,11 +87,12 @@ Fixpoint mismatches_from (i : nat) (cs : list exp_case) : list (nat * list nat) 
    0 known_C17_clash   1 known_C16_fk_cycle   2 known_C18_datetime (former class, fixed)   3 known_C18_slice_order
    4 fk_closed (hypothesis of refs_exist)   5 known_C17_py_ident   6 known_C17_py_dup
    7 known_C17_py_empty_import   8 known_C17_py_text   9 known_C17_py_sqlmodel_text
-   10 known_C17_rust_ident (on the names the oracle reported for the table)   11 known_C17_py_sqlmodel_float_word *)
+   10 known_C17_rust_ident (on the names the oracle reported for the table)   11 known_C17_py_sqlmodel_float_word   12 known_C17_seaorm_doc_cr *)
 Definition classify_table (s : schema) (t : table_def) (o : xt) : list bool :=
   [known_C17_clash s t; known_C16_fk_cycle s t; known_C18_datetime t; known_C18_slice_order s t;
    fk_closed s; known_C17_py_ident t; known_C17_py_dup t; known_C17_py_empty_import t; known_C17_py_text t;
-   known_C17_py_sqlmodel_text t; known_C17_rust_ident s t (xt_invalid o); known_C17_py_sqlmodel_float_word t].
+   known_C17_py_sqlmodel_text t; known_C17_rust_ident s t (xt_invalid o); known_C17_py_sqlmodel_float_word t;
+   known_C17_seaorm_doc_cr t].
 Definition classify_case (c : exp_case) : list (list bool) :=
   map (fun to => classify_table (x_schema c) (fst to) (snd to)) (combine (x_schema c) (x_obs c)).
 
